@@ -38,7 +38,14 @@ type I0 interface{ M0() }
 type I1 interface{ M1() }
 type I2 interface{ M2() }
 
-// implements matrix: *T0: I0,I1   *T1: I0   *T2: I1,I2   *T3: I2   *T4: -   *T5: I0,I1,I2
+// I01 embeds I0 and I1: an interface type that itself implements other
+// interfaces (a result of type I01 may be provided As(I0), As(I1), As(I01)).
+type I01 interface {
+	M0()
+	M1()
+}
+
+// implements matrix: *T0: I0,I1,I01   *T1: I0   *T2: I1,I2   *T3: I2   *T4: -   *T5: I0,I1,I2,I01
 func (*T0) M0() {}
 func (*T0) M1() {}
 func (*T1) M0() {}
@@ -88,6 +95,7 @@ func buildPool() map[string]*typeInfo {
 	pool["I0"] = &typeInfo{Name: "I0", RT: reflect.TypeOf((*I0)(nil)).Elem(), Iface: true}
 	pool["I1"] = &typeInfo{Name: "I1", RT: reflect.TypeOf((*I1)(nil)).Elem(), Iface: true}
 	pool["I2"] = &typeInfo{Name: "I2", RT: reflect.TypeOf((*I2)(nil)).Elem(), Iface: true}
+	pool["I01"] = &typeInfo{Name: "I01", RT: reflect.TypeOf((*I01)(nil)).Elem(), Iface: true}
 	return pool
 }
 
@@ -100,18 +108,21 @@ func init() {
 
 // ConcreteTypes / IfaceTypes in deterministic order.
 var ConcreteTypes = []string{"T0", "T1", "T2", "T3", "T4", "T5", "S0", "S1", "L0"}
-var IfaceTypes = []string{"I0", "I1", "I2"}
+var IfaceTypes = []string{"I0", "I1", "I2", "I01"}
 
 // Impls lists for each interface the concrete pool types implementing it.
 var Impls = map[string][]string{
-	"I0": {"T0", "T1", "T5"},
-	"I1": {"T0", "T2", "T5"},
-	"I2": {"T2", "T3", "T5"},
+	"I0":  {"T0", "T1", "T5"},
+	"I1":  {"T0", "T2", "T5"},
+	"I2":  {"T2", "T3", "T5"},
+	"I01": {"T0", "T5"},
 }
 
 // IfacesOf lists interfaces implemented by a concrete type.
 var IfacesOf = map[string][]string{
-	"T0": {"I0", "I1"}, "T1": {"I0"}, "T2": {"I1", "I2"}, "T3": {"I2"}, "T4": {}, "T5": {"I0", "I1", "I2"}, "S0": {}, "S1": {}, "L0": {},
+	"T0": {"I0", "I1", "I01"}, "T1": {"I0"}, "T2": {"I1", "I2"}, "T3": {"I2"}, "T4": {}, "T5": {"I0", "I1", "I2", "I01"}, "S0": {}, "S1": {}, "L0": {},
+	// an interface type implements the interfaces whose methods it has
+	"I01": {"I0", "I1", "I01"},
 }
 
 func implements(concrete, iface string) bool {
